@@ -88,6 +88,12 @@ def check(run):
             ok, txt = front_expiry(tgt)
             why = 'the advance target is %s, not the expiry of the front of m_timer_queue' % txt
         run.check(ok, 'R4', 'advance-target', 'sim::simulation::run', own.loc(adv), why, 'target is the front of the sorted timer queue')
+        # the jump is measured from a FRESH reading of the clock
+        if is_node(arg) and arg['k'] == 'call' and arg.get('opc') == '-':
+            okf, whyf = fresh_clock_reading(own, arg['args'][1])
+            run.check(okf, 'R4', 'advance-from-clock', 'sim::simulation::run', own.loc(adv),
+                      'the jump is computed as <front expiry> - %s, and %s: when they differ (a timer armed for a past instant leaves the clock where it is) every later jump overshoots the earliest pending expiry by the difference' % (q.render(own, arg['args'][1]), whyf),
+                      'the subtrahend is high_resolution_clock::now() read after the last advance')
         # non-empty queue guard
         guards = q.guards_at(own, adv)
         ne = any(q.nonempty_test(own, a, p, 'm_timer_queue') for a, p in guards)
@@ -146,6 +152,35 @@ def check(run):
     other = [a for a in q.field_accesses(f) if a.is_write and a.field != 'sim::simulation::m_stopped']
     run.check(not other and not list(f.calls()), 'R2', 'restart-effect', 'sim::simulation::restart', f.loc(),
               'restart() does more than clear the stop flag: %s' % ([a.field for a in other] + [q.callee_name(c) for c in f.calls()]), 'restart only clears the flag (no event or clock state touched)')
+
+
+NOW = 'sim::chrono::high_resolution_clock::now'
+
+
+def fresh_clock_reading(fn, e):
+    """e denotes the CURRENT value of the virtual clock: a call of high_resolution_clock::now(), or a local whose every
+    reaching definition is such a call with no fast_forward evaluated in between (q.reaching_events: definitions and
+    advances kill each other)."""
+    e = q.strip_casts(e)
+    if is_node(e) and e['k'] == 'call' and q.callee_name(e) == NOW:
+        return True, ''
+    if is_node(e) and e['k'] == 'ref' and e.get('dk') == 'local':
+        defs = q.local_defs(fn, e['did'])
+        ffs = [c for c in fn.calls() if q.callee_name(c) == FF]
+        ev, bare = q.reaching_events(fn, [s for s, _ in defs] + ffs, e)
+        if not ev:
+            return False, 'no definition of it reaches this point'
+        for x in ev:
+            if any(x is c for c in ffs):
+                return False, 'it was read before the advance at line %d and not re-read since (stale)' % x.get('l', 0)
+            rhs = [r for s_, r in defs if s_ is x]
+            r0 = q.strip_casts(rhs[0]) if rhs else None
+            while is_node(r0) and r0['k'] == 'construct' and len(r0.get('args') or []) == 1:
+                r0 = q.strip_casts(r0['args'][0])
+            if not (is_node(r0) and r0['k'] == 'call' and q.callee_name(r0) == NOW):
+                return False, 'on some path its value is %s (line %d), not a reading of the clock' % (q.render(fn, r0)[:60], x.get('l', 0))
+        return True, ''
+    return False, 'it is not a reading of high_resolution_clock::now()'
 
 
 def _const_increments(fn):
